@@ -574,6 +574,7 @@ type flt_loadTables struct {
 	cmp                []flt_cmpCase
 	rhsStrOp, rhsIntOp string
 	ctors              [][2]string // op -> constructor(s), comma separated
+	underlying         [][2]string // case op -> the op whose presence sets the `underlying` flag of that case
 }
 
 var flt_makeCallRe = regexp.MustCompile(`\b(make\w+Filter)\(`)
@@ -635,6 +636,9 @@ func (t *fltTr) readLoader(path string) (*flt_loadTables, error) {
 				return nil, t.errf(k, "newFilter: case key is not an ir constant")
 			}
 			lt.ctors = append(lt.ctors, [2]string{op, strings.Join(names, ",")})
+			if m := regexp.MustCompile(`underlying := filter\.Op == ir\.(\w+)`).FindStringSubmatch(txt); m != nil {
+				lt.underlying = append(lt.underlying, [2]string{op, m[1]})
+			}
 			if len(names) == 1 && names[0] == "makeNotFilter" {
 				want := "x, err := l.newFilter(filter.Args[0], info) ;; if err != nil { return result, err } ;; result.fn = makeNotFilter(result.src, x)"
 				if txt != want || len(cc.List) != 1 {
@@ -1052,7 +1056,19 @@ func flt_filterTables(repo string, _ []string) (string, error) {
 	}
 	sb.WriteString("].\n")
 	sb.WriteString("(* ir_loader.newFilter: op -> constructor(s) called in its case *)\n")
-	pairs("gen_load_ctor", lt.ctors)
+	sb.WriteString("Definition gen_load_ctor : list (string * list string) := [")
+	for i, p := range lt.ctors {
+		if i > 0 {
+			sb.WriteString("; ")
+		}
+		var qs []string
+		for _, n := range strings.Split(p[1], ",") {
+			qs = append(qs, flt_coqStr(n))
+		}
+		fmt.Fprintf(&sb, "(%s, [%s])", flt_coqStr(p[0]), strings.Join(qs, "; "))
+	}
+	sb.WriteString("].\n(* cases of newFilter that pass an `underlying` flag: case op -> the op for which the flag is true *)\n")
+	pairs("gen_load_underlying", lt.underlying)
 	fmt.Fprintf(&sb, "(* the ops newBinaryExprFilter reads the rhs constant from *)\nDefinition gen_load_rhs_str_op : string := %s.\nDefinition gen_load_rhs_int_op : string := %s.\n\n", flt_coqStr(lt.rhsStrOp), flt_coqStr(lt.rhsIntOp))
 
 	fmt.Fprintf(&sb, "Definition gen_tables : tables := {|\n  t_flags := map (fun x => (fst (fst x), snd x)) gen_filter_ops;\n  t_const_str := %s;\n  t_const_int := %s;\n  t_funcref := %s;\n"+
@@ -1072,5 +1088,773 @@ func flt_filterTables(repo string, _ []string) (string, error) {
 		sb.WriteString(s)
 	}
 	sb.WriteString("Definition gen_combinators : combinators :=\n  {| c_not := gen_makeNotFilter; c_and := gen_makeAndFilter; c_or := gen_makeOrFilter |}.\n")
+	return sb.String(), nil
+}
+
+// ================================================================ filterpreds (C02)
+//
+// Regenerates what the per-predicate theorems of C02 are stated about:
+//   go/types BasicInfo of every BasicKind and the IsXxx bit values (by linking go/types),
+//   ir_loader.stringToBasicKind and the OfKind dispatch of newFilter (special kinds, `underlying` flag),
+//   the acceptance conditions of makeTypeOfKindFilter / makeTypeIsSignedFilter / makeTypeIsIntUintFilter as Gallina,
+//   go_version.go:versionCompare as Gallina,
+//   filters.go:typeHasPointers as a case table,
+//   one summary per make*Filter constructor: list branch?, operand selector, acceptance condition (single / per element),
+//   every predicate path documented in dsl/dsl.go (enumerated from the declared types).
+
+func init() {
+	subcommands["filterpreds"] = flt_filterPreds
+}
+
+// ---- a tiny expression translator: Go int/bool expressions over named atoms -> Gallina over Z/bool
+type fltExprTr struct {
+	t     *fltTr
+	atoms map[string]string // Go expression text -> Coq term of type Z
+	bools map[string]string // Go expression text -> Coq term of type bool
+}
+
+func (x *fltExprTr) z(e ast.Expr) (string, error) {
+	txt := x.t.text(e)
+	if c, ok := x.atoms[txt]; ok {
+		return c, nil
+	}
+	switch v := e.(type) {
+	case *ast.ParenExpr:
+		return x.z(v.X)
+	case *ast.BasicLit:
+		if v.Kind == token.INT {
+			return "(" + v.Value + ")", nil
+		}
+	case *ast.SelectorExpr:
+		if n, ok := flt_selName(v, "types"); ok && strings.HasPrefix(n, "Is") {
+			return "(info_bit " + flt_coqStr(n) + ")", nil
+		}
+		if n, ok := flt_selName(v, "types"); ok {
+			return "(kind_num " + flt_coqStr(n) + ")", nil
+		}
+	case *ast.BinaryExpr:
+		a, err := x.z(v.X)
+		if err != nil {
+			return "", err
+		}
+		b, err := x.z(v.Y)
+		if err != nil {
+			return "", err
+		}
+		switch v.Op {
+		case token.AND:
+			return "(Z.land " + a + " " + b + ")", nil
+		case token.ADD:
+			return "(" + a + " + " + b + ")", nil
+		case token.SUB:
+			return "(" + a + " - " + b + ")", nil
+		}
+	}
+	return "", x.t.errf(e, "expression translator: unsupported int expression %s", txt)
+}
+
+func (x *fltExprTr) b(e ast.Expr) (string, error) {
+	txt := x.t.text(e)
+	if c, ok := x.bools[txt]; ok {
+		return c, nil
+	}
+	switch v := e.(type) {
+	case *ast.ParenExpr:
+		return x.b(v.X)
+	case *ast.UnaryExpr:
+		if v.Op == token.NOT {
+			a, err := x.b(v.X)
+			if err != nil {
+				return "", err
+			}
+			return "(negb " + a + ")", nil
+		}
+	case *ast.BinaryExpr:
+		switch v.Op {
+		case token.LAND, token.LOR:
+			a, err := x.b(v.X)
+			if err != nil {
+				return "", err
+			}
+			c, err := x.b(v.Y)
+			if err != nil {
+				return "", err
+			}
+			if v.Op == token.LAND {
+				return "(" + a + " && " + c + ")", nil
+			}
+			return "(" + a + " || " + c + ")", nil
+		case token.EQL, token.NEQ, token.LSS, token.LEQ, token.GTR, token.GEQ:
+			a, err := x.z(v.X)
+			if err != nil {
+				return "", err
+			}
+			c, err := x.z(v.Y)
+			if err != nil {
+				return "", err
+			}
+			switch v.Op {
+			case token.EQL:
+				return "(" + a + " =? " + c + ")", nil
+			case token.NEQ:
+				return "(negb (" + a + " =? " + c + "))", nil
+			case token.LSS:
+				return "(" + a + " <? " + c + ")", nil
+			case token.LEQ:
+				return "(" + a + " <=? " + c + ")", nil
+			case token.GTR:
+				return "(" + c + " <? " + a + ")", nil
+			case token.GEQ:
+				return "(" + c + " <=? " + a + ")", nil
+			}
+		}
+	}
+	return "", x.t.errf(e, "expression translator: unsupported bool expression %s", txt)
+}
+
+// closureOf returns the statements of the closure returned by a make*Filter constructor
+func (t *fltTr) closureOf(fd *ast.FuncDecl) (*ast.FuncLit, error) {
+	if len(fd.Body.List) == 0 {
+		return nil, t.errf(fd, "%s: empty body", fd.Name.Name)
+	}
+	ret, ok := fd.Body.List[len(fd.Body.List)-1].(*ast.ReturnStmt)
+	if !ok || len(ret.Results) != 1 {
+		return nil, t.errf(fd, "%s: last statement is not a return", fd.Name.Name)
+	}
+	fl, ok := ret.Results[0].(*ast.FuncLit)
+	if !ok || t.text(fl.Type) != "func(params *filterParams) matchFilterResult" {
+		return nil, t.errf(fd, "%s: does not return a filter closure", fd.Name.Name)
+	}
+	return fl, nil
+}
+
+// the three kind-test closures: typ := typeofNode(subExpr(varname)); if underlying {typ = typ.Underlying()};
+// if basicType, ok := typ.(*types.Basic); ok { [first := kind; last := kind + 4;] if COND { return filterSuccess } }; return filterFailure(src)
+func (t *fltTr) kindClosure(ff *ast.File, name string) (string, error) {
+	fd := flt_findFunc(ff, name)
+	if fd == nil {
+		return "", fmt.Errorf("%s not found", name)
+	}
+	fl, err := t.closureOf(fd)
+	if err != nil {
+		return "", err
+	}
+	b := fl.Body.List
+	if len(fd.Body.List) != 1 || len(b) != 4 || t.text(b[0]) != "typ := params.typeofNode(params.subExpr(varname))" ||
+		t.text(b[1]) != "if underlying { typ = typ.Underlying() }" || t.text(b[3]) != "return filterFailure(src)" {
+		return "", t.errf(fd, "%s: closure has an unknown shape", name)
+	}
+	is, ok := b[2].(*ast.IfStmt)
+	if !ok || is.Init == nil || t.text(is.Init) != "basicType, ok := typ.(*types.Basic)" || t.text(is.Cond) != "ok" || is.Else != nil {
+		return "", t.errf(fd, "%s: expected if basicType, ok := typ.(*types.Basic); ok", name)
+	}
+	x := &fltExprTr{t: t, atoms: map[string]string{"basicType.Info()": "info", "basicType.Kind()": "k", "kind": "kind"}, bools: map[string]string{}}
+	inner := is.Body.List
+	for len(inner) > 1 {
+		as, ok := inner[0].(*ast.AssignStmt)
+		if !ok || as.Tok != token.DEFINE || len(as.Lhs) != 1 || len(as.Rhs) != 1 {
+			return "", t.errf(fd, "%s: unexpected statement %s", name, t.text(inner[0]))
+		}
+		v, err := x.z(as.Rhs[0])
+		if err != nil {
+			return "", err
+		}
+		x.atoms[t.text(as.Lhs[0])] = v
+		inner = inner[1:]
+	}
+	ci, ok := inner[0].(*ast.IfStmt)
+	if !ok || ci.Init != nil || ci.Else != nil || t.stmtsText(ci.Body.List) != "return filterSuccess" {
+		return "", t.errf(fd, "%s: expected if COND { return filterSuccess }", name)
+	}
+	cond, err := x.b(ci.Cond)
+	if err != nil {
+		return "", err
+	}
+	return fmt.Sprintf("Definition gen_cond_%s (info k kind : Z) : bool :=\n  %s.\n", name, cond), nil
+}
+
+// versionCompare: switch op { case token.T: return EXPR ... default: panic }
+func (t *fltTr) versionCompare(path string) (string, error) {
+	f, err := flt_parseFile(t.fset, path)
+	if err != nil {
+		return "", err
+	}
+	fd := flt_findFunc(f, "versionCompare")
+	if fd == nil {
+		return "", fmt.Errorf("versionCompare not found")
+	}
+	if t.text(fd.Type) != "func(x GoVersion, op token.Token, y GoVersion) bool" || len(fd.Body.List) != 1 {
+		return "", t.errf(fd, "versionCompare: unknown signature or body")
+	}
+	sw, ok := fd.Body.List[0].(*ast.SwitchStmt)
+	if !ok || sw.Init != nil || t.text(sw.Tag) != "op" {
+		return "", t.errf(fd, "versionCompare: expected switch op")
+	}
+	cases := map[string]string{}
+	var order []string
+	var pending []struct {
+		tok  string
+		expr ast.Expr
+	}
+	x := &fltExprTr{t: t, atoms: map[string]string{"x.Major": "xM", "x.Minor": "xm", "y.Major": "yM", "y.Minor": "ym"}, bools: map[string]string{}}
+	for _, c := range sw.Body.List {
+		cc := c.(*ast.CaseClause)
+		if cc.List == nil {
+			if len(cc.Body) != 1 || !strings.HasPrefix(t.text(cc.Body[0]), "panic(") {
+				return "", t.errf(cc, "versionCompare: default is not a panic")
+			}
+			continue
+		}
+		if len(cc.List) != 1 || len(cc.Body) != 1 {
+			return "", t.errf(cc, "versionCompare: unexpected case")
+		}
+		tok, ok := flt_selName(cc.List[0], "token")
+		if !ok {
+			return "", t.errf(cc, "versionCompare: case key is not a token")
+		}
+		ret, ok := cc.Body[0].(*ast.ReturnStmt)
+		if !ok || len(ret.Results) != 1 {
+			return "", t.errf(cc, "versionCompare: case body is not a return")
+		}
+		order = append(order, tok)
+		pending = append(pending, struct {
+			tok  string
+			expr ast.Expr
+		}{tok, ret.Results[0]})
+	}
+	// two passes so that `!versionCompare(x, token.T, y)` can refer to another case
+	for pass := 0; pass < 2; pass++ {
+		for _, p := range pending {
+			if _, done := cases[p.tok]; done {
+				continue
+			}
+			for tk, body := range cases {
+				x.bools[fmt.Sprintf("versionCompare(x, token.%s, y)", tk)] = body
+			}
+			s, err := x.b(p.expr)
+			if err != nil {
+				if pass == 0 {
+					continue
+				}
+				return "", err
+			}
+			cases[p.tok] = s
+		}
+	}
+	var sb strings.Builder
+	sb.WriteString("(* go_version.go:versionCompare; a token without a case panics *)\nDefinition gen_versionCompare (xM xm : Z) (op : string) (yM ym : Z) : outcome bool :=\n")
+	for _, tk := range order {
+		fmt.Fprintf(&sb, "  if String.eqb op %s then Ok %s else\n", flt_coqStr(tk), cases[tk])
+	}
+	sb.WriteString("  Panic PExplicit.\n")
+	// IsAny
+	any := flt_findFunc(f, "IsAny")
+	if any == nil || t.stmtsText(any.Body.List) != "return ver.Major == 0" {
+		return "", fmt.Errorf("GoVersion.IsAny has an unknown body")
+	}
+	sb.WriteString("Definition gen_version_is_any (major : Z) : bool := (major =? 0).\n")
+	return sb.String(), nil
+}
+
+// typeHasPointers: switch typ := typ.(type) { Basic: switch Kind {case ...: return true}; return false | Named: recurse Underlying |
+// Struct: any field | Array: Elem | default: true }
+func (t *fltTr) hasPointers(ff *ast.File) (string, error) {
+	fd := flt_findFunc(ff, "typeHasPointers")
+	if fd == nil {
+		return "", fmt.Errorf("typeHasPointers not found")
+	}
+	if len(fd.Body.List) != 1 {
+		return "", t.errf(fd, "typeHasPointers: body is not a single switch")
+	}
+	ts, ok := fd.Body.List[0].(*ast.TypeSwitchStmt)
+	if !ok || t.text(ts.Assign) != "typ := typ.(type)" {
+		return "", t.errf(fd, "typeHasPointers: expected switch typ := typ.(type)")
+	}
+	var basicTrue []string
+	shape := map[string]string{}
+	for _, c := range ts.Body.List {
+		cc := c.(*ast.CaseClause)
+		if cc.List == nil {
+			if t.stmtsText(cc.Body) != "return true" {
+				return "", t.errf(cc, "typeHasPointers: default case is not `return true`")
+			}
+			shape["default"] = "true"
+			continue
+		}
+		if len(cc.List) != 1 {
+			return "", t.errf(cc, "typeHasPointers: multi-type case")
+		}
+		switch ty := t.text(cc.List[0]); ty {
+		case "*types.Basic":
+			if len(cc.Body) != 2 || t.text(cc.Body[1]) != "return false" {
+				return "", t.errf(cc, "typeHasPointers: Basic case has an unknown shape")
+			}
+			sw, ok := cc.Body[0].(*ast.SwitchStmt)
+			if !ok || t.text(sw.Tag) != "typ.Kind()" || len(sw.Body.List) != 1 {
+				return "", t.errf(cc, "typeHasPointers: Basic case: expected one-clause switch typ.Kind()")
+			}
+			kc := sw.Body.List[0].(*ast.CaseClause)
+			if t.stmtsText(kc.Body) != "return true" {
+				return "", t.errf(kc, "typeHasPointers: Basic kind clause is not `return true`")
+			}
+			for _, k := range kc.List {
+				n, ok := flt_selName(k, "types")
+				if !ok {
+					return "", t.errf(k, "typeHasPointers: kind is not a types constant")
+				}
+				basicTrue = append(basicTrue, n)
+			}
+			shape["Basic"] = "kinds"
+		case "*types.Named":
+			if t.stmtsText(cc.Body) != "return typeHasPointers(typ.Underlying())" {
+				return "", t.errf(cc, "typeHasPointers: Named case has an unknown shape")
+			}
+			shape["Named"] = "underlying"
+		case "*types.Struct":
+			if t.stmtsText(cc.Body) != "for i := 0; i < typ.NumFields(); i++ { if typeHasPointers(typ.Field(i).Type()) { return true } } ;; return false" {
+				return "", t.errf(cc, "typeHasPointers: Struct case has an unknown shape: %s", t.stmtsText(cc.Body))
+			}
+			shape["Struct"] = "anyfield"
+		case "*types.Array":
+			if t.stmtsText(cc.Body) != "return typeHasPointers(typ.Elem())" {
+				return "", t.errf(cc, "typeHasPointers: Array case has an unknown shape")
+			}
+			shape["Array"] = "elem"
+		default:
+			return "", t.errf(cc, "typeHasPointers: unexpected case %s", ty)
+		}
+	}
+	var sb strings.Builder
+	sb.WriteString("(* filters.go:typeHasPointers *)\nDefinition gen_hasptr_basic_true : list string := [")
+	for i, k := range basicTrue {
+		if i > 0 {
+			sb.WriteString("; ")
+		}
+		sb.WriteString(flt_coqStr(k))
+	}
+	sb.WriteString("].\nDefinition gen_hasptr_cases : list (string * string) := [")
+	first := true
+	for _, k := range []string{"Basic", "Named", "Struct", "Array", "default"} {
+		if v, ok := shape[k]; ok {
+			if !first {
+				sb.WriteString("; ")
+			}
+			first = false
+			fmt.Fprintf(&sb, "(%s, %s)", flt_coqStr(k), flt_coqStr(v))
+		}
+	}
+	sb.WriteString("].\n")
+	return sb.String(), nil
+}
+
+// ---- constructor summaries
+type fltCtor struct {
+	name, operand, cond, listCond string
+	hasList, simple                bool
+}
+
+var fltListRe = regexp.MustCompile(`^if list := asExprSlice\(params\.subNode\((\w+)\)\); list != nil \{ return exprListFilterApply\(src, list\.GetExprSlice\(\), func\(x ast\.Expr\) bool \{ (.*) \}\) \}$`)
+
+func (t *fltTr) summarize(name string, fl *ast.FuncLit) fltCtor {
+	c := fltCtor{name: name}
+	b := fl.Body.List
+	if len(b) > 0 {
+		if m := fltListRe.FindStringSubmatch(t.text(b[0])); m != nil {
+			c.hasList = true
+			body := strings.TrimSpace(m[2])
+			c.listCond = strings.TrimSpace(strings.TrimPrefix(body, "return "))
+			if !strings.HasPrefix(body, "return ") || strings.Contains(c.listCond, " return ") {
+				c.listCond = "{" + body + "}"
+			}
+			b = b[1:]
+		}
+	}
+	// simple single part:  [v := OPERAND ;] if COND { return filterSuccess } ; return filterFailure(src)
+	txt := t.stmtsText(b)
+	re := regexp.MustCompile(`^(?:(\w+) := (.+?) ;; )?if (.+) \{ return filterSuccess \} ;; return filterFailure\(src\)$`)
+	if m := re.FindStringSubmatch(txt); m != nil && !strings.Contains(m[3], " ;; ") && !strings.Contains(m[2], " ;; ") {
+		cond := m[3]
+		if m[1] != "" {
+			cond = regexp.MustCompile(`\b`+regexp.QuoteMeta(m[1])+`\b`).ReplaceAllString(cond, m[2])
+		}
+		c.simple = true
+		c.cond = cond
+	} else {
+		c.cond = "{" + txt + "}"
+	}
+	// operand selector of the single part
+	switch {
+	case strings.Contains(c.cond, "params.typeofNode(params.subExpr("):
+		c.operand = "OpSubExprTyped"
+	case strings.Contains(c.cond, "params.typeofNode(params.subNode("):
+		c.operand = "OpSubNodeTyped"
+	case strings.Contains(c.cond, "params.subExpr("):
+		c.operand = "OpSubExpr"
+	case strings.Contains(c.cond, "params.subNode("):
+		c.operand = "OpSubNode"
+	default:
+		c.operand = "OpNone"
+	}
+	// normalise the operand to X so that the per-element and the single condition can be compared
+	norm := func(s string) string {
+		s = regexp.MustCompile(`params\.sub(Expr|Node)\(\w+\)`).ReplaceAllString(s, "X")
+		return s
+	}
+	c.cond = norm(c.cond)
+	c.listCond = regexp.MustCompile(`\bx\b`).ReplaceAllString(c.listCond, "X")
+	return c
+}
+
+func (t *fltTr) ctors(ff *ast.File) ([]fltCtor, error) {
+	var out []fltCtor
+	for _, d := range ff.Decls {
+		fd, ok := d.(*ast.FuncDecl)
+		if !ok || fd.Body == nil || fd.Recv != nil || !strings.HasPrefix(fd.Name.Name, "make") || !strings.HasSuffix(fd.Name.Name, "Filter") {
+			continue
+		}
+		if fd.Type.Results == nil || len(fd.Type.Results.List) != 1 || t.text(fd.Type.Results.List[0].Type) != "filterFunc" {
+			continue
+		}
+		switch fd.Name.Name {
+		case "makeNotFilter", "makeAndFilter", "makeOrFilter":
+			continue
+		case "makeTypeIsFilter":
+			// two closures selected by `underlying`
+			if len(fd.Body.List) != 2 {
+				return nil, t.errf(fd, "makeTypeIsFilter: expected `if underlying { return closure }; return closure`")
+			}
+			is, ok := fd.Body.List[0].(*ast.IfStmt)
+			if !ok || t.text(is.Cond) != "underlying" || len(is.Body.List) != 1 {
+				return nil, t.errf(fd, "makeTypeIsFilter: expected if underlying")
+			}
+			r1, ok1 := is.Body.List[0].(*ast.ReturnStmt)
+			r2, ok2 := fd.Body.List[1].(*ast.ReturnStmt)
+			if !ok1 || !ok2 {
+				return nil, t.errf(fd, "makeTypeIsFilter: closures not found")
+			}
+			f1, ok1 := r1.Results[0].(*ast.FuncLit)
+			f2, ok2 := r2.Results[0].(*ast.FuncLit)
+			if !ok1 || !ok2 {
+				return nil, t.errf(fd, "makeTypeIsFilter: closures not found")
+			}
+			out = append(out, t.summarize("makeTypeIsFilter/underlying", f1), t.summarize("makeTypeIsFilter", f2))
+			continue
+		}
+		fl, err := t.closureOf(fd)
+		if err != nil {
+			return nil, err
+		}
+		out = append(out, t.summarize(fd.Name.Name, fl))
+	}
+	if len(out) < 30 {
+		return nil, fmt.Errorf("filters.go: only %d constructors found", len(out))
+	}
+	return out, nil
+}
+
+// ---- dsl.go: every documented predicate path
+func (t *fltTr) dslPaths(path string) ([][2]string, error) {
+	f, err := flt_parseFile(t.fset, path)
+	if err != nil {
+		return nil, err
+	}
+	structs := map[string]*ast.StructType{}
+	methods := map[string][]*ast.FuncDecl{}
+	named := map[string]string{} // defined non-struct types: name -> underlying text
+	for _, d := range f.Decls {
+		switch v := d.(type) {
+		case *ast.GenDecl:
+			for _, sp := range v.Specs {
+				if ts, ok := sp.(*ast.TypeSpec); ok {
+					if st, ok := ts.Type.(*ast.StructType); ok {
+						structs[ts.Name.Name] = st
+					} else {
+						named[ts.Name.Name] = t.text(ts.Type)
+					}
+				}
+			}
+		case *ast.FuncDecl:
+			if v.Recv != nil && len(v.Recv.List) == 1 {
+				rt := strings.TrimPrefix(t.text(v.Recv.List[0].Type), "*")
+				methods[rt] = append(methods[rt], v)
+			}
+		}
+	}
+	var out [][2]string
+	var walk func(typ, prefix string, depth int) error
+	walk = func(typ, prefix string, depth int) error {
+		if depth > 5 {
+			return fmt.Errorf("dsl.go: path nesting too deep at %s", prefix)
+		}
+		join := func(n string) string {
+			if prefix == "" {
+				return n
+			}
+			return prefix + "." + n
+		}
+		leaf := func(resType string) string {
+			switch resType {
+			case "bool":
+				return "bool"
+			case "int":
+				return "int"
+			}
+			if u, ok := named[resType]; ok && u == "string" {
+				return "string:" + resType
+			}
+			return ""
+		}
+		if st, ok := structs[typ]; ok {
+			for _, fld := range st.Fields.List {
+				ft := t.text(fld.Type)
+				for _, n := range fld.Names {
+					if !n.IsExported() {
+						continue
+					}
+					if k := leaf(ft); k != "" {
+						out = append(out, [2]string{join(n.Name), "field:" + k})
+						if strings.HasPrefix(k, "string:") {
+							if err := walk(ft, join(n.Name), depth+1); err != nil {
+								return err
+							}
+						}
+						continue
+					}
+					if err := walk(ft, join(n.Name), depth+1); err != nil {
+						return err
+					}
+				}
+			}
+		}
+		for _, m := range methods[typ] {
+			if !m.Name.IsExported() {
+				continue
+			}
+			res := ""
+			if m.Type.Results != nil && len(m.Type.Results.List) == 1 {
+				res = t.text(m.Type.Results.List[0].Type)
+			}
+			if k := leaf(res); k != "" {
+				out = append(out, [2]string{join(m.Name.Name), "method:" + k})
+				continue
+			}
+			if _, ok := structs[res]; ok && res != "Matcher" && res != typ {
+				if err := walk(res, join(m.Name.Name), depth+1); err != nil {
+					return err
+				}
+			} else if res == "ExprType" && typ == "ExprType" {
+				// Underlying() returns an ExprType again: one level is what the converter knows
+				for _, m2 := range methods["ExprType"] {
+					if m2.Name.Name == "Underlying" || !m2.Name.IsExported() {
+						continue
+					}
+					r2 := ""
+					if m2.Type.Results != nil && len(m2.Type.Results.List) == 1 {
+						r2 = t.text(m2.Type.Results.List[0].Type)
+					}
+					if k := leaf(r2); k != "" {
+						out = append(out, [2]string{join(m.Name.Name) + "." + m2.Name.Name, "method:" + k})
+					}
+				}
+			}
+		}
+		return nil
+	}
+	if err := walk("Var", "", 0); err != nil {
+		return nil, err
+	}
+	// Matcher-level predicates
+	for _, m := range methods["Matcher"] {
+		res := ""
+		if m.Type.Results != nil && len(m.Type.Results.List) == 1 {
+			res = t.text(m.Type.Results.List[0].Type)
+		}
+		switch {
+		case res == "bool":
+			out = append(out, [2]string{m.Name.Name, "matcher:bool"})
+		case res == "File" || res == "GoVersion":
+			if err := walk(res, m.Name.Name, 1); err != nil {
+				return nil, err
+			}
+		}
+	}
+	sort.Slice(out, func(i, j int) bool { return out[i][0] < out[j][0] })
+	return out, nil
+}
+
+func flt_filterPreds(repo string, _ []string) (string, error) {
+	t := &fltTr{fset: token.NewFileSet()}
+	ff, err := flt_parseFile(t.fset, repo+"/ruleguard/filters.go")
+	if err != nil {
+		return "", err
+	}
+	var sb strings.Builder
+	sb.WriteString("(* GENERATED by go2coq filterpreds from go/types and ruleguard/{ir_loader.go,filters.go,go_version.go}, dsl/dsl.go\n   -- do not edit; regenerated on every check. *)\n")
+	sb.WriteString("From Coq Require Import List ZArith Bool String.\nFrom RG.Base Require Import Outcome.\nFrom RG.Filters Require Import FilterIR Predicates.\nImport ListNotations.\nLocal Open Scope string_scope.\nLocal Open Scope Z_scope.\n\n")
+
+	// go/types tables
+	sb.WriteString("(* go/types: BasicKind name, number, BasicInfo (from the linked go/types package) *)\nDefinition gen_basic_kinds : list (string * Z * Z) := [\n")
+	kindNames := fltBasicKindNames()
+	for i, kn := range kindNames {
+		sep := ";"
+		if i == len(kindNames)-1 {
+			sep = ""
+		}
+		fmt.Fprintf(&sb, "  (%s, %d, %d)%s\n", flt_coqStr(kn.name), kn.kind, kn.info, sep)
+	}
+	sb.WriteString("].\nDefinition gen_info_bits : list (string * Z) := [")
+	for i, b := range fltInfoBits() {
+		if i > 0 {
+			sb.WriteString("; ")
+		}
+		fmt.Fprintf(&sb, "(%s, %d)", flt_coqStr(b.name), b.val)
+	}
+	sb.WriteString("].\n")
+	sb.WriteString("Definition info_bit (n : string) : Z := match assoc n gen_info_bits with Some v => v | None => 0 end.\n")
+	sb.WriteString("Definition kind_num (n : string) : Z := match find (fun x => String.eqb (fst (fst x)) n) gen_basic_kinds with Some x => snd (fst x) | None => -1 end.\n\n")
+
+	// stringToBasicKind + OfKind dispatch
+	lf, err := flt_parseFile(t.fset, repo+"/ruleguard/ir_loader.go")
+	if err != nil {
+		return "", err
+	}
+	stk := flt_findFunc(lf, "stringToBasicKind")
+	if stk == nil || len(stk.Body.List) != 1 {
+		return "", fmt.Errorf("stringToBasicKind not found or has an unknown body")
+	}
+	sw, ok := stk.Body.List[0].(*ast.SwitchStmt)
+	if !ok || t.text(sw.Tag) != "s" {
+		return "", t.errf(stk, "stringToBasicKind: expected switch s")
+	}
+	sb.WriteString("(* ir_loader.go:stringToBasicKind (a name without a case yields 0 = load error) *)\nDefinition gen_string_to_basic_kind : list (string * string) := [")
+	first := true
+	for _, c := range sw.Body.List {
+		cc := c.(*ast.CaseClause)
+		if cc.List == nil {
+			if t.stmtsText(cc.Body) != "return 0" {
+				return "", t.errf(cc, "stringToBasicKind: default is not `return 0`")
+			}
+			continue
+		}
+		if len(cc.Body) != 1 {
+			return "", t.errf(cc, "stringToBasicKind: case body")
+		}
+		ret, ok := cc.Body[0].(*ast.ReturnStmt)
+		if !ok || len(ret.Results) != 1 {
+			return "", t.errf(cc, "stringToBasicKind: case body is not a return")
+		}
+		bit, ok := flt_selName(ret.Results[0], "types")
+		if !ok {
+			return "", t.errf(cc, "stringToBasicKind: result is not a types constant")
+		}
+		for _, k := range cc.List {
+			name, err := strconv.Unquote(t.text(k))
+			if err != nil {
+				return "", t.errf(k, "stringToBasicKind: key is not a string literal")
+			}
+			if !first {
+				sb.WriteString("; ")
+			}
+			first = false
+			fmt.Fprintf(&sb, "(%s, %s)", flt_coqStr(name), flt_coqStr(bit))
+		}
+	}
+	sb.WriteString("].\n")
+	// the OfKind case of newFilter
+	nf := flt_findFunc(lf, "newFilter")
+	if nf == nil {
+		return "", fmt.Errorf("newFilter not found")
+	}
+	var ofk *ast.CaseClause
+	ast.Inspect(nf.Body, func(n ast.Node) bool {
+		if cc, ok := n.(*ast.CaseClause); ok && len(cc.List) == 2 && t.text(cc.List[0]) == "ir.FilterVarTypeOfKindOp" && t.text(cc.List[1]) == "ir.FilterVarTypeUnderlyingOfKindOp" {
+			ofk = cc
+		}
+		return true
+	})
+	if ofk == nil || len(ofk.Body) != 4 {
+		return "", fmt.Errorf("newFilter: the OfKind case was not found or has an unknown shape")
+	}
+	if t.text(ofk.Body[0]) != "kindString := l.unwrapStringExpr(filter.Args[0])" || t.text(ofk.Body[2]) != "underlying := filter.Op == ir.FilterVarTypeUnderlyingOfKindOp" {
+		return "", t.errf(ofk, "newFilter: OfKind prelude has an unknown shape")
+	}
+	ksw, ok := ofk.Body[3].(*ast.SwitchStmt)
+	if !ok || t.text(ksw.Tag) != "kindString" {
+		return "", t.errf(ofk, "newFilter: OfKind: expected switch kindString")
+	}
+	sb.WriteString("(* newFilter, OfKind case: special kind names -> (constructor, kind argument); other names go through stringToBasicKind to makeTypeOfKindFilter *)\nDefinition gen_ofkind_special : list (string * (string * string)) := [")
+	first = true
+	defaultOK := false
+	for _, c := range ksw.Body.List {
+		cc := c.(*ast.CaseClause)
+		txt := t.stmtsText(cc.Body)
+		if cc.List == nil {
+			want := "kind := l.stringToBasicKind(kindString) ;; if kind == 0 { return result, l.errorf(filter.Line, nil, \"unknown kind %s\", kindString) } ;; result.fn = makeTypeOfKindFilter(result.src, filter.Value.(string), underlying, kind)"
+			if txt != want {
+				return "", t.errf(cc, "newFilter: OfKind default case has an unknown shape: %s", txt)
+			}
+			defaultOK = true
+			continue
+		}
+		m := regexp.MustCompile(`^result\.fn = (make\w+)\(result\.src, filter\.Value\.\(string\), underlying(?:, types\.(\w+))?\)$`).FindStringSubmatch(txt)
+		if m == nil || len(cc.List) != 1 {
+			return "", t.errf(cc, "newFilter: OfKind special case has an unknown shape: %s", txt)
+		}
+		name, _ := strconv.Unquote(t.text(cc.List[0]))
+		if !first {
+			sb.WriteString("; ")
+		}
+		first = false
+		fmt.Fprintf(&sb, "(%s, (%s, %s))", flt_coqStr(name), flt_coqStr(m[1]), flt_coqStr(m[2]))
+	}
+	if !defaultOK {
+		return "", t.errf(ofk, "newFilter: OfKind has no default case")
+	}
+	sb.WriteString("].\n\n")
+	for _, n := range []string{"makeTypeOfKindFilter", "makeTypeIsSignedFilter", "makeTypeIsIntUintFilter"} {
+		s, err := t.kindClosure(ff, n)
+		if err != nil {
+			return "", err
+		}
+		sb.WriteString(s)
+	}
+	sb.WriteString("\n")
+	vc, err := t.versionCompare(repo + "/ruleguard/go_version.go")
+	if err != nil {
+		return "", err
+	}
+	sb.WriteString(vc + "\n")
+	hp, err := t.hasPointers(ff)
+	if err != nil {
+		return "", err
+	}
+	sb.WriteString(hp + "\n")
+	cs, err := t.ctors(ff)
+	if err != nil {
+		return "", err
+	}
+	sb.WriteString("(* one summary per make*Filter constructor of filters.go: list branch?, operand selector, acceptance condition of the\n   single branch and of the per-element branch (operand written X; {...} = a body that is not a single condition) *)\nDefinition gen_ctors : list (string * ctor_info) := [\n")
+	for i, c := range cs {
+		sep := ";"
+		if i == len(cs)-1 {
+			sep = ""
+		}
+		fmt.Fprintf(&sb, "  (%s, {| ci_list := %s; ci_operand := %s; ci_simple := %s; ci_cond := %s; ci_list_cond := %s |})%s\n",
+			flt_coqStr(c.name), flt_coqBool(c.hasList), c.operand, flt_coqBool(c.simple), flt_coqStr(c.cond), flt_coqStr(c.listCond), sep)
+	}
+	sb.WriteString("].\n\n")
+	paths, err := t.dslPaths(repo + "/dsl/dsl.go")
+	if err != nil {
+		return "", err
+	}
+	sb.WriteString("(* dsl/dsl.go: every predicate path reachable from Var / Matcher that ends in bool, int or a string type *)\nDefinition gen_dsl_paths : list (string * string) := [\n")
+	for i, p := range paths {
+		sep := ";"
+		if i == len(paths)-1 {
+			sep = ""
+		}
+		fmt.Fprintf(&sb, "  (%s, %s)%s\n", flt_coqStr(p[0]), flt_coqStr(p[1]), sep)
+	}
+	sb.WriteString("].\n")
 	return sb.String(), nil
 }
